@@ -2,7 +2,7 @@
 
 SERVER_RULE = (
     "server engine: a real dht.Server on a fake PacketConn driven through generated event histories (scenarios table / "
-    "methods / tokens / peers / queries / blocklist / misc / budget / bep44 / collide: peers' own queries carrying our outstanding transaction ids / tokens and methods over the configuration lattice peer store x announce hook x WaitToReply x query hook / peershook: a blocking OnAnnouncePeer hook released by the history); after EVERY event the datagrams written, "
+    "methods / tokens / peers / queries / blocklist / misc / budget / bep44 / collide: peers' own queries carrying our outstanding transaction ids / tokens and methods over the configuration lattice peer store x announce hook x WaitToReply x query hook / peershook: a blocking OnAnnouncePeer hook released by the history / peerfam: get_peers over stored-peer families x requester address form x want x table families); after EVERY event the datagrams written, "
     "callbacks, peer-store calls, query completions, the routing-table snapshot (hook) and API counters are compared with "
     "the extracted model's step on the same event (relational where Go leaves a choice: eviction victim, node-list "
     "members/order, values order, transaction id); a case line is distinct by its full event text incl. its history "
@@ -45,7 +45,8 @@ PROPS = {
                   "completion per datagram"),
     "C08": server("oracle: destination, echoed t, at most one datagram, 203/204, response form, silence on non-queries"),
     "C09": server("oracle: node lists <= 8 distinct good responded contacts of the right family, nearest buckets first "
-                  "relative to the query's target"),
+                  "relative to the query's target; a reply without values lists every wanted family that has a good contact at or "
+                  "below the target's bucket"),
     "C10": server("oracle: announce_peer/put with a token never issued to that IP or older than 15 min has no effect; a token "
                   "younger than 10 min is honoured"),
     "C11": server("oracle: get_peers values = announced endpoints (uint16 port, implied_port), BEP 32 family filtering, token present"),
